@@ -3534,12 +3534,16 @@ Octagonal_Shape<T>::simplify_using_context_assign(const Octagonal_Shape& y) {
       if (j != x_leaders[j]) {
         continue;
       }
-      if (i >= j) {
-        if (!x_non_redundant_i[j]) {
-          continue;
-        }
+      // Consider each constraint once, at the position where the
+      // pseudo-triangular matrix stores it (row `i', column `j' with
+      // `j < row_size(i)'): this is where its redundancy flag is kept.
+      // (The entry at (i, j) with `j >= row_size(i)' is the one stored
+      // at (cj, ci); in particular, for even `i', the entry (i, i + 1)
+      // is the unary constraint stored in row `i' itself.)
+      if (j >= i + 2 - i % 2) {
+        continue;
       }
-      else if (!x_non_redundant[j][i]) {
+      if (!x_non_redundant_i[j]) {
         continue;
       }
       N& yy_i_j = yy.matrix_at(i, j);
